@@ -30,9 +30,9 @@ type meterCase struct {
 }
 
 type recGauge struct {
-	bigInt uint64
+	bigInt  uint64
 	wrapped bool // some BigInt amount had the top bit set: a negative estimate converted to uint64
-	calls  int
+	calls   int
 }
 
 func (g *recGauge) MeterMemory(u common.MemoryUsage) error {
@@ -390,7 +390,7 @@ func replayC32(env *mc.Env, raw json.RawMessage) (bool, string) {
 
 func init() {
 	mc.Register(&mc.Check{
-		ID: "C32",
+		ID:   "C32",
 		Rule: "every (type, op, a, b): Int/UInt operands = for each word length n in the stated list the values 2^(64(n-1)), 2^(64(n-1))+1, 2^(64n)-1 and the alternating-bit value of n words, both signs for Int, all pairs; shift amounts {0,1,63,64,65,127,128,1000,4096}; 128/256-bit types over the boundary lattice; ops + - * / % neg | ^ & << >> and the saturating variants, executed on the real value methods with a recording memory gauge; oracle metered(MemoryKindBigInt) >= len(result.Bits())*wordSize. non-trivial = distinct case with a non-empty result that was compared with a recorded estimate",
 		Assumptions: []string{
 			"the size of the result is len(result.Bits())*8 bytes (the property's definition), not the capacity math/big allocated",
